@@ -178,6 +178,23 @@ def groupop_pool(rng, crys, D, sibs, where, nbase):
             pool.add(GroupOp(g.rot, g.trans + e, g.cartrot, g.indexmap), v, "trans+-1e-14", "G[%d] trans+1e-14" % n)
             pool.add(GroupOp(g.rot, g.trans, g.cartrot + 1e-14 * np.sign(rng.random() - 0.5), g.indexmap), v,
                      "cartrot+-1e-14", "G[%d] cartrot+1e-14" % n)
+            # equality is np.allclose (atol 1e-8): shifts of a few 1e-9 are still the SAME value, wherever they fall
+            # relative to any rounding grid a hash might use; all variants stay within 8e-9 of each other so that the
+            # tolerance-based equality is still transitive among them
+            for mag in (2e-9, 4e-9):
+                e9 = np.array([rng.choice((-mag, mag)) for _ in range(dim)])
+                pool.add(GroupOp(g.rot, g.trans + e9, g.cartrot, g.indexmap), v, "trans+-%g" % mag,
+                         "G[%d] trans+%s" % (n, e9.tolist()))
+            pool.add(GroupOp(g.rot, g.trans, g.cartrot + 4e-9 * np.sign(rng.random() - 0.5), g.indexmap), v,
+                     "cartrot+-4e-9", "G[%d] cartrot+4e-9" % n)
+            # the same, straddling a decimal rounding boundary at 6, 7 and 8 digits (a hash must not depend on which
+            # side of such a boundary an equal value falls)
+            for off in (0.1234565, 0.22345675, 0.323456785):
+                e0 = np.zeros(dim)
+                e0[rng.randrange(dim)] = off
+                for sgn in (-1, 1):
+                    pool.add(GroupOp(g.rot, g.trans + e0 + sgn * 2e-9, g.cartrot, g.indexmap), v + ("shifted", off),
+                             "trans at rounding boundary", "G[%d] trans+%r%+g" % (n, off, sgn * 2e-9))
         else:
             v = op_value(crys, g, D)
             e = np.zeros(dim)
